@@ -114,6 +114,34 @@ def rand_step(r, kind, cfg, p):
     return [s, v]
 
 
+def refused_step(r, kind):
+    """A setter call with a value that does not fit the format (symbolic, expanded by apply_lib): it has to be refused with
+    ValueError - and whatever the object does with it, the setter calls that follow must leave a coherent object."""
+    if kind == "metadata":
+        return [r.choice(("source_file_name", "dest_file_name")), {"name_octets": r.choice((256, 300))}, "refused"]
+    if kind == "file_data":
+        return ["file_data", {"oversize": 65536 + r.choice((0, 1, 40))}, "refused"]
+    if kind == "nak":
+        return ["segment_requests", {"count": 8192 + r.choice((0, 1, 100))}, "refused"]
+    return None
+
+
+def rand_steps(r, kind, cfg, p, n):
+    out = []
+    for _ in range(n):
+        rs = refused_step(r, kind) if r.random() < 0.06 else None
+        if rs is not None:
+            out.append(rs)
+            while True:                                   # ... followed by a valid call of the same setter
+                st = rand_step(r, kind, cfg, p)
+                if st[0] == rs[0]:
+                    out.append(st)
+                    break
+        else:
+            out.append(rand_step(r, kind, cfg, p))
+    return out
+
+
 def apply_model(kind, cfg, p, step):
     """Final values after a setter, as (cfg, params) for a fresh construction."""
     s, v = step
@@ -143,7 +171,15 @@ def apply_model(kind, cfg, p, step):
 
 def apply_lib(kind, pdu, step):
     X = C.lib()
-    s, v = step
+    s, v = step[:2]
+    if isinstance(v, dict):
+        if "name_octets" in v:
+            setattr(pdu, s, "y" * v["name_octets"] if v["name_octets"] % 2 == 0 else "\u00e4" * (v["name_octets"] // 2))
+        elif "oversize" in v:
+            pdu.file_data = bytes(v["oversize"])
+        elif "count" in v:
+            pdu.segment_requests = [(i, i + 1) for i in range(v["count"])]
+        return
     if s == "fault_location":
         pdu.fault_location = None if v is None else X.EntityIdTlv(bytes.fromhex(v))
     elif s == "condition_code":
@@ -245,6 +281,21 @@ def k_pdu_history(ctx, kind, cfg, p, steps, start="constructed", conf_dir=None):
                        (lambda: model_octets(kind, cur_cfg, cur_p)) if kind in mkinds else None):
         return
     for i, step in enumerate(steps):
+        if len(step) > 2:
+            ok, err = attempt(apply_lib, kind, pdu, step)
+            ctx.table("refused_steps", f"{kind}.{step[0]}")
+            ctx.ev("history.setter")
+            if ok:
+                # accepted: then at least nothing inconsistent may be packed
+                okp, rawp = attempt(lambda: bytes(pdu.pack()))
+                if okp:
+                    ctx.fail("history.setter", "value_that_does_not_fit_the_format_accepted_and_packed", f"{kind}.{step[0]}", case, step=i, packed_len=len(rawp),
+                             length_field=int.from_bytes(rawp[1:3], "big"))
+                    return
+            elif not isinstance(err, ValueError):
+                ctx.fail("history.setter", "wrong_error_for_value_that_does_not_fit", f"{kind}.{step[0]}/{type(err).__name__}", case, step=i, error=repr(err))
+                return
+            continue
         ok, err = attempt(apply_lib, kind, pdu, step)
         if not ctx.check("history.setter", ok, "raised", f"{kind}.{step[0]}/" + (exc_sig(err) if not ok else ""), case, step=i, error=repr(err)):
             return
@@ -508,7 +559,7 @@ def run(ctx):
                 p["start"] &= 0xFFFFFFFF
                 p["end"] &= 0xFFFFFFFF
                 p["segments"] = None if p["segments"] is None else [[a & 0xFFFFFFFF, b & 0xFFFFFFFF] for a, b in p["segments"]]
-        steps = [rand_step(r, kind, cfg, p) for _ in range(hist_len(r, 1, MAX_STEPS + 1))]
+        steps = rand_steps(r, kind, cfg, p, hist_len(r, 1, MAX_STEPS + 1))
         k_pdu_history(ctx, kind, cfg, p, steps, start=r.choice(("constructed", "constructed", "decoded")), conf_dir=r.choice((None, 0, 1)))
     for j in range(ctx.n(300, 30_000)):
         k_alt_ctor_siblings(ctx, ctx.seed * 1_000_003 + ctx.shard[0] * 100_003 + j)
